@@ -1,6 +1,7 @@
 import Cinco.Drv.FieldWire
 import Cinco.Config.Ops
 import Cinco.Config.Keys
+import Cinco.Config.ListOps
 import Cinco.Config.Env
 import Cinco.Config.Paths
 /-
@@ -203,6 +204,15 @@ def cfgOp (W : World) (s : Schema) (c : Cfg) (n : Nat) (j : Json) : R (Json × C
       match toTree W fuelDefault s c (fBoolD j "virtual" false) mask with
       | some t => pure (Json.mkObj [("tree", valToJson (.dict t))], c, n)
       | none => pure (cerrToJson (.raw "error"), c, n)
+  | "list_op" => do
+      let key ← fChars j "key"
+      let mode ← match (← fStr j "mode") with
+        | "append" => pure ListMode.append
+        | "insert" => do pure (ListMode.insert (← fInt j "i"))
+        | "setidx" => do pure (ListMode.setIdx (← fInt j "i"))
+        | m => throw s!"unknown list mode {m}"
+      let o := cfgListOp W fuelDefault s c key mode (← valOfJson (← field j "v")) n
+      pure (outJson o, o.cfg, o.next)
   | "setkey" => do
       let path ← (← fArr j "path").mapM (fun x => match x with | .str s => pure s | _ => throw "bad path")
       let file := match fieldOpt j "file" with | some (.str f) => some f | _ => none
